@@ -303,11 +303,48 @@ def bounded(ctx):
                 # hypothesis: no next-level site other than the two the design provides
                 s = str(prod.seq)
                 nsite = be.enzyme_geometry(N.cutter)[0]
-                if len(be.occurrences(s, nsite)) != 1 or len(be.occurrences(s, gen.rc(nsite))) != 1:
+                if len(be.occurrences(s, nsite)) > 1 or len(be.occurrences(s, gen.rc(nsite))) > 1:   # MORE than the design provides
                     continue
                 check_next_level(prod, targets, N, CircularRecord, Seq, label.replace(" ", "_"), viol)
                 if len(samples) < 3:
                     samples.append(dict(triple=label, product_length=len(s)))
+    # every rotation of the vector plasmid (the origin inside each flank, site, overhang and the placeholder): products
+    # equal (up to rotation) to the fully checked one of the first rotation need no second look, any other is checked
+    for (kit, vname, mname, nname) in TRIPLES:
+        try:
+            r = run_triple(ns, kits, kit, vname, mname, nname, rng, 1, 4)
+        except Exception:
+            r = None
+        if r is None or not r[0].is_valid() or not all(m.is_valid() for m in r[1]):
+            continue
+        vec, mods, targets, N = r
+        vt0 = str(vec.record.seq)
+        got0, prod0, _ = ba.run_assembly(vec, mods)
+        if got0[0] != "product":
+            continue
+        s0 = str(prod0.seq)
+        nsite = be.enzyme_geometry(N.cutter)[0]
+        if len(be.occurrences(s0, nsite)) > 1 or len(be.occurrences(s0, gen.rc(nsite))) > 1:   # MORE than the design provides
+            continue
+        label = ("%s+%s->%s every vector rotation" % (vname, mname, nname)).replace(" ", "_")
+        if not check_next_level(prod0, targets, N, CircularRecord, Seq, label, viol):
+            continue
+        for rot in range(1, len(vt0)):
+            evals += 1
+            v2 = type(vec)(CircularRecord(Seq(vt0[rot:] + vt0[:rot]), id="vec"))
+            got, prod, _ = ba.run_assembly(v2, mods)
+            distinct.add((vname, "vrot", rot))
+            if got[0] == "product" and ba.is_rotation(str(prod.seq), s0):
+                continue
+            if got[0] != "product":
+                viol.append(dict(name="assemble_rot_%s" % vname, what="%s: with the vector rotated by %d the assembly ended with %r" % (label, rot, got),
+                                 case=dict(vector=vt0, rotation=rot)))
+                break
+            s2 = str(prod.seq)
+            if len(be.occurrences(s2, nsite)) > 1 or len(be.occurrences(s2, gen.rc(nsite))) > 1:   # MORE than the design provides
+                continue
+            if not check_next_level(prod, targets, N, CircularRecord, Seq, label + "_rot", viol):
+                break
     evals += 1
     try:
         ok, detail = two_level_cidar(ns, kits, rng)
@@ -323,7 +360,7 @@ def bounded(ctx):
                 rule="every (vector, module, next-level) triple of the kits x chains of 1-3 inserts x target lengths 2..10, vectors and "
                      "modules instantiated from the real structure literals (seeded fillings free of further sites of both enzymes, "
                      "random rotations; record ids distinct, all the library's default product id, all Biopython's default): the product must be accepted by the next-level class at EVERY rotation and its target must "
-                     "contain every insert in chain order; products carrying another next-level site are outside the hypothesis; a "
+                     "contain every insert in chain order; products carrying another next-level site are outside the hypothesis; every rotation of the vector plasmid for one scenario per triple; a "
                      "two-level CIDAR composition (entries -> cassette -> device)",
                 bound="8 triples x chains <= 3 x 3 (6) target lengths", samples=samples,
                 violations=list(uniq.values())[:20], n_violations=len(uniq))
